@@ -144,7 +144,15 @@ func hangVerdict(r *vf.Run, caseID string, res childResult, what map[string]any)
 		r.Violation(caseID, "hang", w)
 		return
 	}
-	r.Inconclusive(fmt.Sprintf("case %s: watchdog fired after %.0fs without a goroutine blocked in updog/bbolt code", caseID, res.Wall.Seconds()))
+	sample := ""
+	if os.Getenv("VERIF_DEBUG") != "" {
+		for _, g := range strings.Split(res.Dump, "\n\n") {
+			if strings.Contains(g, "akrennmair/updog.") && len(sample) < 3000 {
+				sample += head(g, 700) + " || "
+			}
+		}
+	}
+	r.Inconclusive(fmt.Sprintf("case %s: watchdog fired after %.0fs without a goroutine blocked in updog/bbolt code %s", caseID, res.Wall.Seconds(), sample))
 }
 
 func tail(s string, n int) string {
